@@ -1,6 +1,7 @@
 SPECIFICATION GenSpec
 CONSTANT Which = "C18"
 CONSTANT TinyLen = 0
+CONSTANT OwnTailLen = 6
 CONSTANT TailLen = 5
 CONSTANT SmallLen = 0
 CONSTANT AsBuilt = {}
